@@ -55,9 +55,11 @@ NbLists(H, ppp, types, frames, nn) ==
      LET T == NB!DT(cc, f) IN [i \in 1..Len(types) |-> NB!Canon(NB!NNExpected(T, i, nn))]]
 
 Mk(id, d, H, org, ppp, types, frames, seed, nn) ==
-  LET K == Cardinality(Range(types)) IN
+  LET K  == Cardinality(Range(types))
+      nl == NbLists(H, ppp, types, frames, nn) IN
   [ id |-> id, d |-> d, S |-> 3, H |-> H, org |-> org, ppp |-> ppp, types |-> types, frames |-> frames,
-    nb |-> NbLists(H, ppp, types, frames, nn),
+    nb |-> nl,
+    wt |-> [f \in 1..Len(nl) |-> [i \in 1..Len(types) |-> [k \in 1..Len(nl[f][i]) |-> 1 + (Hash(seed + 5, f, i, k) % 4)]]],
     field |-> [i \in 1..Len(types) |-> [k \in 1..d |-> (Hash(seed + 77, 9, i, k) % 7) - 3]],
     vecs |-> IF d = 2 THEN Vecs2 ELSE Vecs3,
     wn |-> 4, rc |-> 11, R |-> TabR(K), dia |-> TabDia(K), E |-> TabE(K), ms |-> TabMs(K),
@@ -88,10 +90,10 @@ Template(t, seed) ==
                 Mk(7, 3, H, org, <<1, 1, 1>>, <<1, 2, 3, 3, 1, 2>>, HFrames(seed, 3, H, org, 6, 2, 0), seed, 3)
     [] t = 8 -> LET H == Tri3(45, 45, 45, 0, 0, 0)  org == <<0, 0, 0>> IN
                 Mk(8, 3, H, org, <<0, 0, 0>>, <<1, 2, 2, 1, 1, 2, 1, 2>>, HFrames(seed, 3, H, org, 8, 2, 14), seed, 4)
-    \* tilted cells with two EQUAL edges: exchanging the two axes gives another cell with the same diagonal
+    \* tilted cells with EQUAL edges (a sheared square / cube): renumbering the axes gives another cell with the same diagonal
     [] t = 11 -> LET H == Tri2(21, 8, 21)  org == <<1, 0 - 4>> IN
                  Mk(11, 2, H, org, <<1, 1>>, <<1, 2, 2, 1, 1, 2>>, HFrames(seed, 2, H, org, 6, 2, 0), seed, 3)
-    [] t = 12 -> LET H == Tri3(21, 21, 35, 5, 0 - 4, 6)  org == <<0 - 3, 2, 0>> IN
+    [] t = 12 -> LET H == Tri3(21, 21, 21, 5, 0 - 4, 6)  org == <<0 - 3, 2, 0>> IN
                  Mk(12, 3, H, org, <<1, 1, 1>>, <<1, 2, 1, 2, 2, 1>>, HFrames(seed, 3, H, org, 6, 1, 0), seed, 3)
 
 \* the seeds for which the templates are tie-free (chosen with Mode = "probe")
@@ -175,7 +177,7 @@ Skel(ds) ==
       K == ds.K
   IN  [ id |-> ds.id, d |-> d, S |-> 1000, H |-> H, org |-> Zero(d), ppp |-> ds.ppp,
         types |-> [i \in 1..K |-> i], frames |-> << [i \in 1..K |-> Zero(d)] >>,
-        nb |-> << [i \in 1..K |-> << >>] >>, field |-> [i \in 1..K |-> Zero(d)],
+        nb |-> << [i \in 1..K |-> << >>] >>, wt |-> << [i \in 1..K |-> << >>] >>, field |-> [i \in 1..K |-> Zero(d)],
         vecs |-> IF d = 2 THEN Vecs2 ELSE Vecs3,
         wn |-> ds.wn, rc |-> ds.rc, R |-> [a \in 1..K |-> [bb \in 1..K |-> ds.rc + 37 * a + 11 * bb]],
         dia |-> [a \in 1..K |-> 1000 + 100 * (a - 1)], E |-> [a \in 1..K |-> [bb \in 1..K |-> 1 + ((a + bb) % 3)]],
@@ -270,14 +272,14 @@ ActOf(c, st) ==
 CaseSmall ==
   [ m |-> "Symmetry", mode |-> "small", base |-> b, word |-> w, c |-> C0, c2 |-> St.c,
     act |-> ActOf(C0, St), obs |-> ObsOf(C0, St),
-    boo3 |-> BooDegrees(NPart(C0), St, b + Len(w) + SALT), sched |-> Schedule(Shape(C0), St),
+    boo3 |-> BooDegrees(NPart(C0), St), sched |-> Schedule(Shape(C0), St),
     cellrel |-> [tilted_axes |-> TiltedAxesWord(C0, St), same_diag |-> SameDiagOtherCell(C0, St)],
     flags |-> Flags(C0), margin |-> Margin(C0) ]
 CaseTraj ==
   LET sk == c0
       sh == [d |-> sk.d, diag |-> IsDiagonal(sk.H), ppp |-> sk.ppp, nfr |-> Tr[b].nfr, n |-> Tr[b].N] IN
       [ m |-> "Symmetry", mode |-> "traj", base |-> Tr[b].id, word |-> w,
-        boo3 |-> BooDegrees(Tr[b].N, sz, b + Len(w) + SALT), sched |-> Schedule(sh, sz), ax |-> sz.ax,
+        boo3 |-> BooDegrees(Tr[b].N, sz), sched |-> Schedule(sh, sz), ax |-> sz.ax,
         same_diag |-> (~sh.diag /\ sz.ax # IdPerm(sk.d) /\ PermVec(sz.ax, Tr[b].L) = Tr[b].L),
         tab  |-> [R |-> sk.R, dia |-> sk.dia, E |-> sk.E, ms |-> sk.ms, an |-> sk.an, ad |-> sk.ad],
         tab2 |-> [R |-> sz.c.R, dia |-> sz.c.dia, E |-> sz.c.E, ms |-> sz.c.ms],
